@@ -86,6 +86,8 @@ type c09Case struct {
 	JSWriters  int       `json:"js_goroutines"`
 	Compilers  int       `json:"compile_goroutines"`
 	Procs      int       `json:"gomaxprocs"`
+	Rounds     int       `json:"rounds"`       // each round: a freshly compiled Tofu, all goroutines released at once
+	Cold       bool      `json:"cold_process"` // run in a worker process of its own, concurrency first
 }
 
 type c09Result struct {
@@ -181,6 +183,10 @@ func (d *digester) walk(v reflect.Value, depth int) {
 		d.w("I:" + v.Elem().Type().String())
 		d.walk(v.Elem(), depth+1)
 	case reflect.Struct:
+		if pp := v.Type().PkgPath(); pp == "sync" || pp == "sync/atomic" {
+			d.w("<sync>") // the state of a lock or a Once is not content
+			return
+		}
 		d.w("S:" + v.Type().String())
 		for i := 0; i < v.NumField(); i++ {
 			d.w(v.Type().Field(i).Name)
@@ -193,11 +199,20 @@ func (d *digester) walk(v reflect.Value, depth int) {
 		}
 		d.w("L" + strconv.Itoa(v.Len()))
 		if v.Type().Elem().Kind() == reflect.Uint8 {
-			d.w(string(v.Bytes()))
+			d.w(string(v.Slice(0, v.Cap()).Bytes()))
 			return
 		}
 		for i := 0; i < v.Len(); i++ {
 			d.walk(v.Index(i), depth+1)
+		}
+		// the spare capacity belongs to the structure too: an append on a shared
+		// slice writes there without changing any length
+		if v.Cap() > v.Len() {
+			ext := v.Slice(0, v.Cap())
+			d.w("C" + strconv.Itoa(v.Cap()))
+			for i := v.Len(); i < v.Cap(); i++ {
+				d.walk(ext.Index(i), depth+1)
+			}
 		}
 	case reflect.Array:
 		d.w("A" + strconv.Itoa(v.Len()))
@@ -381,6 +396,34 @@ var c09FixedFiles = []srcFile{
 `},
 }
 
+// every directive-chain length 0..8 in three flavours: non-cancelling only
+// (truncate and the user directive), with the marker directives id /
+// noAutoescape in between, and ending in a cancelling directive; once under
+// autoescaping and once in an autoescape="false" namespace
+func c09ChainFile(ns, attr string) srcFile {
+	var sb strings.Builder
+	sb.WriteString("{namespace " + ns + attr + "}\n\n/** @param s */\n{template .chains}\n")
+	nonc := []string{"|truncate:30", "|" + c09Bang, "|truncate:25,false", "|truncate:40,true"}
+	for n := 0; n <= 8; n++ {
+		var plain, marked strings.Builder
+		for i := 0; i < n; i++ {
+			plain.WriteString(nonc[i%len(nonc)])
+			if i%2 == 1 {
+				marked.WriteString([]string{"|id", "|noAutoescape"}[(i/2)%2])
+			} else {
+				marked.WriteString(nonc[i%len(nonc)])
+			}
+		}
+		fmt.Fprintf(&sb, "%d:{$s%s};{$s%s};{$s%s|escapeUri};{print $s + 'x'%s}\n", n, plain.String(), marked.String(), plain.String(), plain.String())
+	}
+	sb.WriteString("{app.G}{app.S}{app.S|truncate:2|truncate:1|" + c09Bang + "}\n{/template}\n")
+	return srcFile{ns + ".soy", sb.String()}
+}
+
+func init() {
+	c09FixedFiles = append(c09FixedFiles, c09ChainFile("fix.chains", ""), c09ChainFile("fix.rawchains", ` autoescape="false"`))
+}
+
 func c09IJ(r *hx.Rand) data.Map {
 	return data.Map{"s": data.String(strPool[r.Intn(len(strPool))]), "n": data.Int(r.Intn(50)),
 		"rec": data.Map{"a": data.Int(r.Intn(9)), "b": data.String("i<j>"), "c": data.List{data.Int(1), data.Int(2)}}}
@@ -396,7 +439,7 @@ type c09Built struct {
 
 // buildCase fills in jobs/ij/po of a case from its files; returns nil when the bundle does not compile.
 func c09Finish(e *env, c *c09Case, names []string, sets [][]data.Map, ij data.Map, withPO bool) *c09Built {
-	b := soy.NewBundle()
+	b := soy.NewBundle().AddGlobalsMap(c09Globals)
 	for _, f := range c.Files {
 		b.AddTemplateString(f.Name, f.Text)
 	}
@@ -433,14 +476,16 @@ func c09Layout(e *env, c *c09Case, idx int) {
 		c.Procs = runtime.NumCPU()
 	}
 	if e.tier == "thorough" {
-		c.G, c.R, c.JSWriters, c.Compilers = 16, 2000, 2, 2
+		c.G, c.R, c.JSWriters, c.Compilers, c.Rounds = 16, 2000, 4, 3, 8
 	} else {
-		c.G, c.R, c.JSWriters, c.Compilers = 4, 50, 2, 2
+		c.G, c.R, c.JSWriters, c.Compilers, c.Rounds = 4, 50, 3, 2, 3
 	}
 }
 
 func c09Config(c *c09Case, k int) (withPO bool, o progOpts) {
-	o = progOpts{depth: 3, directives: true, ij: true}
+	o = progOpts{depth: 3, directives: true, ij: true, shapes: true, chainExtra: []string{"|" + c09Bang}}
+	// 1..20 templates, small bundles still frequent (code may treat small and large registries differently)
+	o.maxTemplates = []int{3, 6, 12, 20}[(k/4)%4]
 	switch k % 4 {
 	case 0: // plain
 	case 1: // a custom obligatory directive and a custom function
@@ -460,9 +505,9 @@ func c09Config(c *c09Case, k int) (withPO bool, o progOpts) {
 
 func c09GenCases(e *env) []*c09Built {
 	var out []*c09Built
-	nGen := 400 * e.scale
+	nGen := 240 * e.scale
 	if e.tier == "thorough" {
-		nGen = 400
+		nGen = 240
 		if e.scale > 10 {
 			nGen = 4 * e.scale
 		}
@@ -477,7 +522,9 @@ func c09GenCases(e *env) []*c09Built {
 		d1 := data.Map{"name": data.String("<World>"), "n": data.Int(1), "items": data.List{data.Int(1), data.Int(2), data.Int(3)}, "rec": rec}
 		d2 := data.Map{"name": data.String("a b c d"), "n": data.Int(5), "items": data.List{}, "rec": rec}
 		d3 := data.Map{"name": data.String("row"), "label": data.String("<i>l</i>")}
-		bt := c09Finish(e, c, []string{"fix.one.main", "fix.one.row", "fix.two.cell"}, [][]data.Map{{d1, d2}, {d3}, {rec}}, c09IJ(e.rng), withPO)
+		d4 := data.Map{"s": data.String("<a href='x'>some & text</a>")}
+		c.Cold = true
+		bt := c09Finish(e, c, []string{"fix.one.main", "fix.one.row", "fix.two.cell", "fix.chains.chains", "fix.rawchains.chains"}, [][]data.Map{{d1, d2}, {d3}, {rec}, {d4}, {d4}}, c09IJ(e.rng), withPO)
 		if bt != nil {
 			out = append(out, bt)
 			idx++
@@ -504,6 +551,7 @@ func c09GenCases(e *env) []*c09Built {
 			}
 		}
 		c09Layout(e, c, idx)
+		c.Cold = i%16 == 5 // now and then a worker process whose very first use of robfig/soy is concurrent
 		bt := c09Finish(e, c, names, sets, c09IJ(e.rng), withPO)
 		if bt == nil {
 			continue
@@ -527,15 +575,21 @@ func runC09(e *env) {
 		c09Replay(e)
 		return
 	}
+	t0 := time.Now()
 	cases := c09GenCases(e)
+	tGen := time.Since(t0)
 	var cs []*c09Case
 	for _, b := range cases {
 		cs = append(cs, b.c)
 	}
+	t1 := time.Now()
 	results := c09RunWorkers(e, cs)
+	tRun := time.Since(t1)
+	t2 := time.Now()
 	for i, bt := range cases {
 		c09Judge(e, bt, results[i])
 	}
+	e.res.Note("time: generation and compilation in the main process %.1fs, worker processes %.1fs, verdicts and model tie %.1fs", tGen.Seconds(), tRun.Seconds(), time.Since(t2).Seconds())
 	c09WatchProbe(e)
 	e.res.Note("runtime oracle: worker subprocesses of this -race binary with GORACE=halt_on_error=1 exitcode=66; GOMAXPROCS per case from {1,2,4,8,16} capped at %d CPUs; Go %s", runtime.NumCPU(), runtime.Version())
 }
@@ -558,20 +612,57 @@ func c09RunWorkers(e *env, cs []*c09Case) []c09Outcome {
 	jobfile := dir + "/cases.json"
 	bs, _ := json.Marshal(cs)
 	os.WriteFile(jobfile, bs, 0o644)
-	start := 0
-	for start < len(cs) {
+	// several lanes of worker processes side by side (most cases use few CPUs)
+	lanes := runtime.NumCPU() / 4
+	if lanes < 1 {
+		lanes = 1
+	}
+	if lanes > 4 {
+		lanes = 4
+	}
+	var mu sync.Mutex
+	var wg sync.WaitGroup
+	for l := 0; l < lanes; l++ {
+		lo, hi := len(cs)*l/lanes, len(cs)*(l+1)/lanes
+		wg.Add(1)
+		go func() {
+			defer wg.Done()
+			c09RunLane(e, cs, jobfile, lo, hi, out, &mu)
+		}()
+	}
+	wg.Wait()
+	return out
+}
+
+// c09RunLane runs cases lo..hi-1; out entries are disjoint between lanes, notes go through mu.
+func c09RunLane(e *env, cs []*c09Case, jobfile string, lo, hi int, out []c09Outcome, mu *sync.Mutex) {
+	start := lo
+	for start < hi {
 		perCase := 60 * time.Second
 		if e.tier == "thorough" {
 			perCase = 600 * time.Second
 		}
-		cmd := exec.Command(e.self, "worker", "c09", jobfile, strconv.Itoa(start))
-		cmd.Env = append(os.Environ(), "GORACE=halt_on_error=1 exitcode=66")
+		// a cold case gets a worker process of its own; warm cases share one
+		end := start + 1
+		if !cs[start].Cold {
+			for end < hi && !cs[end].Cold {
+				end++
+			}
+		}
+		cmd := exec.Command(e.self, "worker", "c09", jobfile, strconv.Itoa(start), strconv.Itoa(end))
+		gorace := "halt_on_error=1 exitcode=66"
+		if v := os.Getenv("C09_GORACE"); v != "" {
+			gorace = v // diagnostics only, e.g. "halt_on_error=0 exitcode=0" to see what the digests and byte comparisons say on their own
+		}
+		cmd.Env = append(os.Environ(), "GORACE="+gorace)
 		var stderr bytes.Buffer
 		cmd.Stderr = &stderr
 		stdout, _ := cmd.StdoutPipe()
 		if err := cmd.Start(); err != nil {
+			mu.Lock()
 			e.res.Note("cannot start worker: %v", err)
-			return out
+			mu.Unlock()
+			return
 		}
 		inflight, ended := -1, false
 		timer := time.AfterFunc(perCase, func() { cmd.Process.Kill() })
@@ -603,15 +694,18 @@ func c09RunWorkers(e *env, cs []*c09Case) []c09Outcome {
 			timedOut = true
 		}
 		if ended {
-			break
+			start = end
+			continue
 		}
 		code := -1
 		if ee, ok := werr.(*exec.ExitError); ok {
 			code = ee.ExitCode()
 		}
 		if inflight < 0 {
+			mu.Lock()
 			e.res.Note("worker ended abnormally between cases (exit %d): %s", code, tail(stderr.String(), 600))
 			e.res.Fail(hx.Violation{Kind: "mismatch", What: "C09 worker ended abnormally between cases", Case: start, Observed: tail(stderr.String(), 2000)}, "")
+			mu.Unlock()
 			break
 		}
 		switch {
@@ -624,7 +718,6 @@ func c09RunWorkers(e *env, cs []*c09Case) []c09Outcome {
 		}
 		start = inflight + 1
 	}
-	return out
 }
 
 func tail(s string, n int) string {
@@ -692,6 +785,19 @@ func c09Judge(e *env, bt *c09Built, o c09Outcome) {
 	}
 	e.res.Count(key, len(c.Jobs) >= 2, "config:"+cfg)
 	e.res.Histogram[fmt.Sprintf("gomaxprocs:%d", c.Procs)]++
+	if c.Cold {
+		e.res.Histogram["cold-process-cases"]++
+	}
+	nt := 0
+	for _, f := range c.Files {
+		nt += strings.Count(f.Text, "{template ")
+	}
+	switch {
+	case nt >= 8:
+		e.res.Histogram["bundles-with->=8-templates"]++
+	default:
+		e.res.Histogram["bundles-with-<8-templates"]++
+	}
 	if o.race != "" {
 		e.res.Histogram["race-reports"]++
 		what := "data race reported by the race detector while one compiled bundle is rendered concurrently: " + raceSummary(o.race)
@@ -757,7 +863,7 @@ func c09ModelTie(e *env, bt *c09Built, r *c09Result) {
 		return
 	}
 	for _, f := range c.Files {
-		if strings.Contains(f.Text, "{msg") || strings.Contains(f.Text, "randomInt") {
+		if strings.Contains(f.Text, "{msg") || strings.Contains(f.Text, "randomInt") || strings.Contains(f.Text, "|"+c09Bang) {
 			return // messages are rendered by the model only without a bundle; keep the tie to the plain core
 		}
 	}
@@ -852,10 +958,16 @@ func c09Worker(args []string) {
 		return
 	}
 	start, _ := strconv.Atoi(args[1])
+	end := len(cs)
+	if len(args) > 2 {
+		if n, err := strconv.Atoi(args[2]); err == nil && n < end {
+			end = n
+		}
+	}
 	c09InstallGlobals()
 	soyhtml.Logger = log.New(io.Discard, "", 0) // {log} goes through one shared *log.Logger
 	w := bufio.NewWriter(os.Stdout)
-	for i := start; i < len(cs); i++ {
+	for i := start; i < end; i++ {
 		fmt.Fprintf(w, "S %d\n", i)
 		w.Flush()
 		r := c09RunCase(cs[i])
@@ -867,8 +979,11 @@ func c09Worker(args []string) {
 	w.Flush()
 }
 
+// one globals map handed to EVERY bundle of the process, also to those compiled concurrently
+var c09Globals = data.Map{"app.G": data.Int(7), "app.S": data.String("g<&>")}
+
 func c09Compile(files []srcFile) (*template.Registry, error) {
-	b := soy.NewBundle()
+	b := soy.NewBundle().AddGlobalsMap(c09Globals)
 	for _, f := range files {
 		b.AddTemplateString(f.Name, f.Text)
 	}
@@ -928,14 +1043,6 @@ func (w *c09Writer) Write(p []byte) (int, error) {
 	return n, fmt.Errorf("writer full")
 }
 
-// soloLimit: where the failing writer of job j gives up (half of the solo output)
-func soloLimit(solo string) int {
-	if i := strings.IndexByte(solo, ':'); i >= 0 {
-		return (len(solo) - i - 1) / 4
-	}
-	return 0
-}
-
 // c09ES6 is ONE formatter value shared by every goroutine that generates ES6 modules.
 var c09ES6 = &soyjs.ES6Formatter{}
 
@@ -960,11 +1067,154 @@ func c09JS(f *ast.SoyFileNode, msgs soymsg.Bundle, es6 bool) (res string) {
 	return "ok:" + strings.Join(lines, "\n")
 }
 
+// ---- what every operation of a case yields when it is the only thing running ----
+
+type c09Expect struct {
+	solo, soloF, soloR, soloV []string // per job: plain, failing writer, Tofu.Render convenience, variant bundle
+	js                        [][3]string // per file: ES5, ES6 (shared formatter), Generator.WriteFile; "" = not comparable
+	broken                    string      // compile error of the broken variant
+}
+
+// c09Limit: where the failing writer of job j gives up (independent of the output)
+func c09Limit(j int) int { return 5 + 7*(j%4) }
+
+// the independent bundle with the SAME template names and other bodies
+func c09Variant(files []srcFile) []srcFile {
+	v := make([]srcFile, len(files))
+	for k, f := range files {
+		v[k] = srcFile{f.Name, strings.Replace(f.Text, "\n{/template}", "{sp}VARIANT\n{/template}", -1)}
+	}
+	return v
+}
+
+// the same bundle with a syntax error inside the last quoted attribute
+// expression of its first file: the parser reports it from the sub-lexer's
+// position data after that lexer has finished
+func c09Broken(files []srcFile) []srcFile {
+	v := append([]srcFile{}, files...)
+	v[0] = srcFile{v[0].Name, v[0].Text + "\n/** */\n{template .zzbroken}\n{css 'a', b}{call .zzbroken data=\"$ij.rec +\" /}\n{/template}\n"}
+	return v
+}
+
+func c09CompileErr(files []srcFile) string {
+	_, err := c09Compile(files)
+	if err == nil {
+		return "no error"
+	}
+	return "error: " + err.Error()
+}
+
+func c09RenderConv(tofu *soyhtml.Tofu, name string, d data.Map) (res string) {
+	w := &c09Writer{limit: -1}
+	defer func() {
+		if p := recover(); p != nil {
+			res = "panic:" + hex.EncodeToString(w.buf.Bytes())
+		}
+	}()
+	var obj interface{}
+	if d != nil {
+		obj = d
+	}
+	if err := tofu.Render(w, name, obj); err != nil {
+		return "err:" + hex.EncodeToString(w.buf.Bytes())
+	}
+	return "ok:" + hex.EncodeToString(w.buf.Bytes())
+}
+
+func c09JSFile(gen *soyjs.Generator, name string) (res string) {
+	var buf bytes.Buffer
+	defer func() {
+		if p := recover(); p != nil {
+			res = "panic"
+		}
+	}()
+	if err := gen.WriteFile(&buf, name); err != nil {
+		return "err"
+	}
+	lines := strings.Split(buf.String(), "\n")
+	sort.Strings(lines)
+	return "ok:" + strings.Join(lines, "\n")
+}
+
+func c09Expectations(c *c09Case, datas []data.Map, ij data.Map, msgs soymsg.Bundle) (*c09Expect, error) {
+	x := &c09Expect{}
+	n := len(c.Jobs)
+	x.solo, x.soloF, x.soloR, x.soloV = make([]string, n), make([]string, n), make([]string, n), make([]string, n)
+	// one freshly compiled registry per kind of solo run (a purity defect, which
+	// could contaminate later solo renders, is the digests' business)
+	for kind := 0; kind < 3; kind++ {
+		fresh, err := c09Compile(c.Files)
+		if err != nil {
+			return nil, err
+		}
+		t := soyhtml.NewTofu(fresh)
+		for j, job := range c.Jobs {
+			switch kind {
+			case 0:
+				x.solo[j] = c09Render(t, job.Template, datas[j], ij, msgs, -1)
+			case 1:
+				x.soloF[j] = c09Render(t, job.Template, datas[j], ij, msgs, c09Limit(j))
+			case 2:
+				x.soloR[j] = c09RenderConv(t, job.Template, datas[j])
+			}
+		}
+	}
+	vreg, err := c09Compile(c09Variant(c.Files))
+	if err != nil {
+		return nil, fmt.Errorf("variant bundle: %v", err)
+	}
+	for j, job := range c.Jobs {
+		x.soloV[j] = c09Render(soyhtml.NewTofu(vreg), job.Template, datas[j], ij, msgs, -1)
+	}
+	alone, err := c09Compile(c.Files)
+	if err != nil {
+		return nil, err
+	}
+	gen := soyjs.NewGenerator(alone)
+	x.js = make([][3]string, len(alone.SoyFiles))
+	for k, f := range alone.SoyFiles {
+		for v := 0; v < 3; v++ {
+			var a, b string
+			if v == 2 {
+				a, b = c09JSFile(gen, f.Name), c09JSFile(gen, f.Name)
+			} else {
+				a, b = c09JS(f, msgs, v == 1), c09JS(f, msgs, v == 1)
+			}
+			if a == b {
+				x.js[k][v] = a
+			}
+		}
+	}
+	if a, b := c09CompileErr(c09Broken(c.Files)), c09CompileErr(c09Broken(c.Files)); a == b {
+		x.broken = a
+	}
+	return x, nil
+}
+
+// what one goroutine saw: the first result per operation, and any later result that differs from it
+type c09Obs struct {
+	first map[string]string
+	self  []string
+	count int
+}
+
+func (o *c09Obs) see(key, got string) {
+	o.count++
+	if f, ok := o.first[key]; !ok {
+		o.first[key] = got
+	} else if f != got && len(o.self) < 2 {
+		o.self = append(o.self, fmt.Sprintf("%s gave two different results in one goroutine: %s and %s", key, clip(f), clip(got)))
+	}
+}
+
 func c09RunCase(c *c09Case) *c09Result {
 	r := &c09Result{}
 	runtime.GOMAXPROCS(c.Procs)
 	soyhtml.ObligatoryPrintDirectiveNames = append([]string{}, c.Oblig...)
 	defer func() { soyhtml.ObligatoryPrintDirectiveNames = []string{} }()
+	if c.Rounds < 1 {
+		c.Rounds = 1
+	}
 
 	// shared objects
 	objs := map[int]data.Value{}
@@ -988,172 +1238,259 @@ func c09RunCase(c *c09Case) *c09Result {
 		r.SetupErr = "po: " + err.Error()
 		return r
 	}
-	shared, err := c09Compile(c.Files)
-	if err != nil {
-		r.SetupErr = "compile: " + err.Error()
-		return r
-	}
-	tofu := soyhtml.NewTofu(shared)
+	variant, broken := c09Variant(c.Files), c09Broken(c.Files)
 
-	// solo runs, on an independently compiled copy and copies of nothing else:
-	// data, ij and bundle are only read (the digests below check exactly that)
-	alone, err := c09Compile(c.Files)
-	if err != nil {
-		r.SetupErr = "compile: " + err.Error()
-		return r
+	// In a warm case the expectations are computed first.  In a COLD case (own
+	// worker process) nothing of robfig/soy has run yet: the first compilations,
+	// the first renders and the first soyjs.Write calls of the process all happen
+	// concurrently, so that lazily initialised package-level state is first
+	// touched by several goroutines at once; the expectations are computed afterwards.
+	var exp *c09Expect
+	if !c.Cold {
+		if exp, err = c09Expectations(c, datas, ij, msgs); err != nil {
+			r.SetupErr = "compile: " + err.Error()
+			return r
+		}
 	}
-	solo := make([]string, len(c.Jobs))
-	for j, job := range c.Jobs {
-		// every solo render gets a registry nobody has rendered from
-		fresh, _ := c09Compile(c.Files)
-		solo[j] = c09Render(soyhtml.NewTofu(fresh), job.Template, datas[j], ij, msgs, -1)
+	before := []string{deepDigest(datas), deepDigest(ij), deepDigest(msgs)}
+
+	nG := c.G + c.JSWriters + c.Compilers
+	obs := make([]*c09Obs, nG)
+	for g := range obs {
+		obs[g] = &c09Obs{first: map[string]string{}}
 	}
-	r.Solo = solo
-	// the same jobs alone with a writer that fails half way
-	soloF := make([]string, len(c.Jobs))
-	for j, job := range c.Jobs {
-		fresh, _ := c09Compile(c.Files)
-		soloF[j] = c09Render(soyhtml.NewTofu(fresh), job.Template, datas[j], ij, msgs, soloLimit(solo[j]))
+	nj := len(c.Jobs)
+	rPer := c.R/c.Rounds + 1
+	for round := 0; round < c.Rounds; round++ {
+		// every round gets a FRESH registry and Tofu: whatever the code builds lazily
+		// inside the compiled bundle is built during the simultaneous first uses
+		var shared *template.Registry
+		if c.Cold && round == 0 {
+			regs := make([]*template.Registry, 4)
+			errs := make([]error, 4)
+			var cw sync.WaitGroup
+			gate := make(chan struct{})
+			for i := range regs {
+				cw.Add(1)
+				go func(i int) {
+					defer cw.Done()
+					<-gate
+					regs[i], errs[i] = c09Compile(c.Files)
+				}(i)
+			}
+			close(gate)
+			cw.Wait()
+			for i := range errs {
+				if errs[i] != nil {
+					r.Diffs = append(r.Diffs, "cold concurrent compilation failed: "+errs[i].Error())
+				}
+			}
+			shared = regs[0]
+		} else {
+			shared, err = c09Compile(c.Files)
+		}
+		if shared == nil {
+			r.SetupErr = "compile: " + fmt.Sprint(err)
+			return r
+		}
+		tofu := soyhtml.NewTofu(shared)
+		gen := soyjs.NewGenerator(shared)
+		regBefore := deepDigest(shared)
+
+		var wg, ready sync.WaitGroup
+		startCh := make(chan struct{})
+		ready.Add(nG)
+		for g := 0; g < c.G; g++ {
+			wg.Add(1)
+			go func(g int) {
+				defer wg.Done()
+				o := obs[g]
+				// a Renderer value built by this goroutine and reused for all its renders of a job
+				own := map[int]*soyhtml.Renderer{}
+				ready.Done()
+				<-startCh
+				for k := 0; k < rPer; k++ {
+					// even goroutines walk the jobs in the same order (same template at the
+					// same time), odd ones start elsewhere (different templates at the same time)
+					j := (k + round) % nj
+					if g%2 == 1 {
+						j = (k + g + round) % nj
+					}
+					switch {
+					case g%4 == 3 && k%2 == 1: // a failing writer: the error path
+						o.see(fmt.Sprintf("render|%d|1", j), c09Render(tofu, c.Jobs[j].Template, datas[j], ij, msgs, c09Limit(j)))
+					case g%4 == 2 && k%3 == 2: // the convenience entry point
+						o.see(fmt.Sprintf("render|%d|2", j), c09RenderConv(tofu, c.Jobs[j].Template, datas[j]))
+					case g%4 == 1:
+						rd := own[j]
+						if rd == nil {
+							rd = tofu.NewRenderer(c.Jobs[j].Template).Inject(ij)
+							if msgs != nil {
+								rd = rd.WithMessages(msgs)
+							}
+							own[j] = rd
+						}
+						o.see(fmt.Sprintf("render|%d|0", j), c09Execute(rd, datas[j], -1))
+					default:
+						o.see(fmt.Sprintf("render|%d|0", j), c09Render(tofu, c.Jobs[j].Template, datas[j], ij, msgs, -1))
+					}
+				}
+			}(g)
+		}
+		for x := 0; x < c.JSWriters; x++ {
+			wg.Add(1)
+			go func(slot int) {
+				defer wg.Done()
+				o := obs[slot]
+				ready.Done()
+				<-startCh
+				n := rPer/4 + 2
+				for k := 0; k < n; k++ {
+					for fi, f := range shared.SoyFiles {
+						// ES5, ES6 (one shared formatter value) and Generator.WriteFile in turn;
+						// in the first pass every JS goroutine does the same thing at the same time
+						v := k % 3
+						if k > 0 {
+							v = (k + slot) % 3
+						}
+						if v == 2 {
+							o.see(fmt.Sprintf("js|%d|2", fi), c09JSFile(gen, f.Name))
+						} else {
+							o.see(fmt.Sprintf("js|%d|%d", fi, v), c09JS(f, msgs, v == 1))
+						}
+					}
+				}
+			}(c.G + x)
+		}
+		for x := 0; x < c.Compilers; x++ {
+			wg.Add(1)
+			go func(slot int) {
+				defer wg.Done()
+				o := obs[slot]
+				ready.Done()
+				<-startCh
+				n := rPer/16 + 2
+				for k := 0; k < n; k++ {
+					j := (k + round) % nj
+					switch (slot + k + round) % 3 {
+					case 0, 1:
+						files, key := c.Files, "compile|%d"
+						if (slot+k+round)%3 == 1 {
+							files, key = variant, "variant|%d"
+						}
+						reg, err := c09Compile(files)
+						if err != nil {
+							o.see(fmt.Sprintf(key, j), "compile error: "+err.Error())
+							continue
+						}
+						o.see(fmt.Sprintf(key, j), c09Render(soyhtml.NewTofu(reg), c.Jobs[j].Template, datas[j], ij, msgs, -1))
+					case 2:
+						o.see("broken", c09CompileErr(broken))
+					}
+				}
+			}(c.G + c.JSWriters + x)
+		}
+		ready.Wait()
+		close(startCh)
+		wg.Wait()
+		if regBefore != deepDigest(shared) {
+			r.Changed = append(r.Changed, fmt.Sprintf("registry (templates, syntax trees, slice backing arrays up to capacity) in round %d", round))
+		}
 	}
-	jsSolo := make([][2]string, len(alone.SoyFiles))
-	for k, f := range alone.SoyFiles {
-		for v, es6 := range []bool{false, true} {
-			a, b := c09JS(f, msgs, es6), c09JS(f, msgs, es6)
-			if a == b {
-				jsSolo[k][v] = a
+
+	after := []string{deepDigest(datas), deepDigest(ij), deepDigest(msgs)}
+	for k, name := range []string{"data maps", "$ij map", "message bundle"} {
+		if before[k] != after[k] {
+			r.Changed = append(r.Changed, name)
+		}
+	}
+	if c.Cold {
+		if exp, err = c09Expectations(c, datas, ij, msgs); err != nil {
+			r.SetupErr = "compile: " + err.Error()
+			return r
+		}
+	}
+	r.Solo = exp.solo
+	for _, k := range exp.js {
+		for _, v := range k {
+			if v != "" {
 				r.JSComparable++
 			}
 		}
 	}
 
-	// an independent bundle with the SAME template names and other bodies, compiled
-	// concurrently by every second compile goroutine: cross-talk between
-	// compilations keyed by name would show in its bytes
-	variant := make([]srcFile, len(c.Files))
-	for k, f := range c.Files {
-		variant[k] = srcFile{f.Name, strings.Replace(f.Text, "\n{/template}", "{sp}VARIANT\n{/template}", -1)}
-	}
-	soloV := make([]string, len(c.Jobs))
-	if vreg, err := c09Compile(variant); err == nil {
-		for j, job := range c.Jobs {
-			soloV[j] = c09Render(soyhtml.NewTofu(vreg), job.Template, datas[j], ij, msgs, -1)
+	// compare what every goroutine saw with the solo results
+	want := func(key string) (string, bool) {
+		f := strings.Split(key, "|")
+		a := 0
+		if len(f) > 1 {
+			a, _ = strconv.Atoi(f[1])
 		}
-	} else {
-		r.SetupErr = "variant bundle: " + err.Error()
-		return r
+		switch f[0] {
+		case "render":
+			switch f[2] {
+			case "0":
+				return exp.solo[a], true
+			case "1":
+				return exp.soloF[a], true
+			default:
+				return exp.soloR[a], true
+			}
+		case "compile":
+			return exp.solo[a], true
+		case "variant":
+			return exp.soloV[a], true
+		case "js":
+			v, _ := strconv.Atoi(f[2])
+			return exp.js[a][v], exp.js[a][v] != ""
+		case "broken":
+			return exp.broken, exp.broken != ""
+		}
+		return "", false
 	}
-	// one Renderer value per job, built once and shared by some goroutines (Execute has a value receiver)
-	rds := make([]*soyhtml.Renderer, len(c.Jobs))
-	for j, job := range c.Jobs {
-		rds[j] = tofu.NewRenderer(job.Template).Inject(ij)
-		if msgs != nil {
-			rds[j] = rds[j].WithMessages(msgs)
+	describe := func(key string) string {
+		f := strings.Split(key, "|")
+		a := 0
+		if len(f) > 1 {
+			a, _ = strconv.Atoi(f[1])
+		}
+		switch f[0] {
+		case "render":
+			return fmt.Sprintf("render of %s (%s)", c.Jobs[a].Template, []string{"plain", "failing writer", "Tofu.Render"}[f[2][0]-'0'])
+		case "compile":
+			return fmt.Sprintf("independent bundle compiled concurrently, render of %s", c.Jobs[a].Template)
+		case "variant":
+			return fmt.Sprintf("independent bundle with the same template names and other bodies, render of %s", c.Jobs[a].Template)
+		case "js":
+			return fmt.Sprintf("JavaScript of file %d (%s)", a, []string{"soyjs.Write ES5", "soyjs.Write ES6, shared formatter", "Generator.WriteFile"}[f[2][0]-'0'])
+		}
+		return "compilation of the bundle with a syntax error (error text)"
+	}
+	for g, o := range obs {
+		switch {
+		case g < c.G:
+			r.Renders += o.count
+		case g < c.G+c.JSWriters:
+			r.JSWrites += o.count
+		default:
+			r.Compiles += o.count
+		}
+		r.Diffs = append(r.Diffs, o.self...)
+		keys := make([]string, 0, len(o.first))
+		for k := range o.first {
+			keys = append(keys, k)
+		}
+		sort.Strings(keys)
+		nd := 0
+		for _, k := range keys {
+			if w, ok := want(k); ok && w != o.first[k] && nd < 2 {
+				nd++
+				r.Diffs = append(r.Diffs, fmt.Sprintf("goroutine %d, %s: alone %s, concurrently %s", g, describe(k), clip(w), clip(o.first[k])))
+			}
 		}
 	}
-
-	before := []string{deepDigest(shared), deepDigest(datas), deepDigest(ij), deepDigest(msgs)}
-
-	// the concurrent phase
-	var wg sync.WaitGroup
-	startCh := make(chan struct{})
-	diffs := make([][]string, c.G+c.JSWriters+c.Compilers)
-	counts := make([]int, c.G+c.JSWriters+c.Compilers)
-	nj := len(c.Jobs)
-	for g := 0; g < c.G; g++ {
-		wg.Add(1)
-		go func(g int) {
-			defer wg.Done()
-			<-startCh
-			for k := 0; k < c.R; k++ {
-				// even goroutines walk the jobs in the same order (same template at the
-				// same time), odd ones start elsewhere (different templates at the same time)
-				j := k % nj
-				if g%2 == 1 {
-					j = (k + g) % nj
-				}
-				want, limit := solo[j], -1
-				if g%4 == 3 && k%2 == 1 { // some renders meet a failing writer
-					want, limit = soloF[j], soloLimit(solo[j])
-				}
-				var got string
-				if g%4 == 1 {
-					got = c09Execute(rds[j], datas[j], limit) // the shared Renderer value
-				} else {
-					got = c09Render(tofu, c.Jobs[j].Template, datas[j], ij, msgs, limit)
-				}
-				counts[g]++
-				if got != want && len(diffs[g]) == 0 {
-					diffs[g] = append(diffs[g], fmt.Sprintf("goroutine %d render %d of %s (writer limit %d): alone %s, concurrently %s", g, k, c.Jobs[j].Template, limit, clip(want), clip(got)))
-				}
-			}
-		}(g)
-	}
-	for x := 0; x < c.JSWriters; x++ {
-		wg.Add(1)
-		go func(slot int) {
-			defer wg.Done()
-			<-startCh
-			n := c.R/8 + 1
-			for k := 0; k < n; k++ {
-				for fi, f := range shared.SoyFiles {
-					v := (k + slot) % 2 // ES5 and ES6 (one shared formatter value) in turn
-					got := c09JS(f, msgs, v == 1)
-					counts[slot]++
-					if jsSolo[fi][v] != "" && got != jsSolo[fi][v] && len(diffs[slot]) == 0 {
-						diffs[slot] = append(diffs[slot], fmt.Sprintf("soyjs.Write of %s: differs from the sequential generation", f.Name))
-					}
-				}
-			}
-		}(c.G + x)
-	}
-	for x := 0; x < c.Compilers; x++ {
-		wg.Add(1)
-		go func(slot int) {
-			defer wg.Done()
-			<-startCh
-			n := c.R/16 + 1
-			for k := 0; k < n; k++ {
-				files, want := c.Files, solo
-				if (slot+k)%2 == 1 {
-					files, want = variant, soloV
-				}
-				reg, err := c09Compile(files)
-				counts[slot]++
-				if err != nil {
-					if len(diffs[slot]) == 0 {
-						diffs[slot] = append(diffs[slot], "concurrent compilation of an independent bundle failed: "+err.Error())
-					}
-					continue
-				}
-				j := k % nj
-				// the independent bundle gets its own data copy?  No: data is shared on purpose.
-				got := c09Render(soyhtml.NewTofu(reg), c.Jobs[j].Template, datas[j], ij, msgs, -1)
-				if got != want[j] && len(diffs[slot]) == 0 {
-					diffs[slot] = append(diffs[slot], fmt.Sprintf("independent bundle compiled concurrently renders %s differently: alone %s, now %s", c.Jobs[j].Template, clip(want[j]), clip(got)))
-				}
-			}
-		}(c.G + c.JSWriters + x)
-	}
-	close(startCh)
-	wg.Wait()
-
-	for g := 0; g < c.G; g++ {
-		r.Renders += counts[g]
-	}
-	for x := 0; x < c.JSWriters; x++ {
-		r.JSWrites += counts[c.G+x]
-	}
-	for x := 0; x < c.Compilers; x++ {
-		r.Compiles += counts[c.G+c.JSWriters+x]
-	}
-	for _, d := range diffs {
-		r.Diffs = append(r.Diffs, d...)
-	}
-	after := []string{deepDigest(shared), deepDigest(datas), deepDigest(ij), deepDigest(msgs)}
-	for k, name := range []string{"registry (templates and syntax trees)", "data maps", "$ij map", "message bundle"} {
-		if before[k] != after[k] {
-			r.Changed = append(r.Changed, name)
-		}
+	if len(r.Diffs) > 12 {
+		r.Diffs = r.Diffs[:12]
 	}
 	return r
 }
